@@ -338,6 +338,19 @@ func REC1Driver(e *Env) {
 		r := reads[0]
 		bad := ""
 		var facts []string
+		if kind == "binaryPropertyReader" {
+			if handled, b, u, f := rec1Batched(e, fn, r, sameElem); handled {
+				switch {
+				case b != "":
+					e.Violate(fn, rule, construct, r.Pos(), b, f...)
+				case u != "":
+					e.Undecide(fn, rule, construct, r.Pos(), u, f...)
+				default:
+					e.Hold(fn, rule, construct, r.Pos(), f...)
+				}
+				continue
+			}
+		}
 		idx := StripConv(r.Common().Args[1])
 		phi, _ := idx.(*ssa.Phi)
 		var c *Counter
